@@ -32,16 +32,18 @@ Definition api_args_okb (a : api) : bool :=
   | _ => true
   end.
 
-(* printn with length 0 of a non-empty string: write_str reads "0" as "use strlen" and the whole
-   string is written although nothing was requested (DESIGN section 11 #3, same root cause) *)
+(* printn with length 0 of a non-empty string: in the PINNED tree write_str read the forwarded "0" as
+   "use strlen" and the whole string was written although nothing was requested (repaired: fix
+   C09-printn-zero-length; kept for the refutation of the pinned variant) *)
 Definition printn_trigger (a : api) : bool :=
   match a with
   | APrintn str len => (len =? 0) && negb (match str with [] => true | _ => false end)
   | _ => false
   end.
 
+(* the one recorded trigger class left: reverse video, erase ending at the right edge *)
 Definition api_excl (t : term) (v : vt) (a : api) : bool :=
-  printn_trigger a || match req_of_api a with Some q => rv_edge_excl t v q | None => false end.
+  match req_of_api a with Some q => rv_edge_excl t v q | None => false end.
 
 (* the result a call returns for what the request reported *)
 Definition result_of (a : api) (ret : bool) : option Z :=
@@ -51,7 +53,7 @@ Definition result_of (a : api) (ret : bool) : option Z :=
   end.
 
 (* sequences of drawing, pen and quiet calls: every call whose request is in range in the state
-   it is issued in (and outside the two recorded trigger classes) has the request's direct
+   it is issued in (and outside the recorded trigger class) has the request's direct
    effect; quiet calls write nothing; the first call of another kind ends the judgement *)
 Fixpoint api_seq_ok (t : term) (v : vt) (l : list api) : Prop :=
   match l with
